@@ -366,7 +366,9 @@ def gen_run_scenario(rng, quick):
     if probe and ret is not None and "env.txt" not in ret:
         ret.append("env.txt")
     return {"section": "run", "jid": rng.choice(["job", "mol_1", "x"]), "files": infiles, "envars": envars, "base": base,
-            "cmds": cmds, "ret": ret, "scratch_entries": rng.choice([[], ["keep.txt"], ["keep.txt", "other_dir"]])}
+            "cmds": cmds, "ret": ret, "scratch_entries": rng.choice([[], ["keep.txt"], ["keep.txt", "other_dir"]]),
+            "paths": {"inp": rng.choice(["abs", "rel"]), "out": rng.choice(["abs", "rel"]), "scr": rng.choice(["abs", "rel"]),
+                      "cwd": rng.choice(["base", "sub", "elsewhere"])}}
 
 
 def build_job(scen, trace: Path):
@@ -459,14 +461,25 @@ def observe_run(ctx, scen, idx, via_entry=False):
         for e in scen["scratch_entries"]:
             (scr / e).mkdir() if e.endswith("_dir") else (scr / e).write_text("keep")
     before = sorted(os.listdir(scr)) if scr.exists() else []
-    argv = ["_molli_run", str(base / "job.inp"), "-o", str(base / "out"), "-s", str(scr)]
+    # every path-valued argument absolute or relative, from the job's directory, a sub-directory of it or an unrelated one
+    ps = scen.get("paths") or {}
+    cwd = {"base": base, "sub": base / "sub" / "deeper", "elsewhere": base.parent / f"elsewhere{idx}{'e' if via_entry else ''}"}[ps.get("cwd", "base")]
+    cwd.mkdir(parents=True, exist_ok=True)
+
+    def arg(path: Path, which: str) -> str:
+        return os.path.relpath(path, cwd) if ps.get(which, "abs") == "rel" else str(path)
+
+    argv = ["_molli_run", arg(base / "job.inp", "inp"), "-o", arg(base / "out", "out"), "-s", arg(scr, "scr")]
     runner = run_entry_point if via_entry else run_forked
-    status = runner(argv, base, scen["base"], 120 if via_entry else 60)
+    status = runner(argv, cwd, scen["base"], 120 if via_entry else 60)
     obs = {"exit": status, "timeout": status is None}
+    if cwd != base:
+        obs["launch_dir_leftovers"] = sorted(p.name for p in cwd.iterdir())
     obs["trace"] = [int(x) for x in trace.read_text().split()] if trace.exists() else []
     obs["scratch_before"] = before
     obs["scratch_after"] = sorted(os.listdir(scr)) if scr.exists() else None
-    obs["cwd_leftovers"] = sorted(p.name for p in base.iterdir() if p.name not in ("trace", "job.inp", "scr", "out"))
+    obs["cwd_leftovers"] = sorted(p.name for p in base.iterdir() if p.name not in ("trace", "job.inp", "scr", "out", "sub")) + \
+        obs.get("launch_dir_leftovers", [])
     outp = base / "out" / "job.out"
     if outp.exists():
         try:
@@ -624,6 +637,9 @@ def check_running(ctx, n_cases, n_entry, corpus):
             ctx.count("run-failure-kind:" + ("signal" if s["cmds"][fail_pos]["code"] < 0 else "exit-status"))
         ctx.count("run-return_files=" + ("None" if s["ret"] is None else "empty" if not s["ret"] else "some"))
         ctx.count(f"run-input-files={len(s['files'])}")
+        ps = s.get("paths") or {}
+        ctx.count("run-paths:" + "/".join(f"{k}={ps.get(k, 'abs')}" for k in ("inp", "out", "scr")))
+        ctx.count(f"run-launch-directory:{ps.get('cwd', 'base')}")
         if s["envars"]:
             ctx.count("run-env-overrides")
         if any(v in s["base"] for v in s["envars"]):
@@ -668,7 +684,8 @@ def run(ctx):
                 "non-trivial = the instances differ. Part 2: command lists of length 1..4, first failure at every position or none, "
                 "failures by exit status {1,2,3,127,255} or by signal {KILL,TERM,SEGV,INT}, named/unnamed commands, 0..3 text/binary input files (empty, NUL, 0xFF, CRLF, UTF-8), "
                 "scripted writes/copies/removals/environment dumps, return_files = subset of created, input, capture and missing "
-                "names / empty / None, environment overrides in job and runner, pre-populated scratch directory; non-trivial = more "
+                "names / empty / None, environment overrides in job and runner, pre-populated scratch directory, every path argument "
+                "(input file, -o, -s) absolute or relative, runner launched from the job's directory, a sub-directory or an unrelated one; non-trivial = more "
                 "than one command or a requested file. Distinct by canonical scenario.")
     ctx.assumptions += [
         "the shell, subprocess and TemporaryDirectory are environment: commands are `sh -c` scripts generated from the scripted outcomes",
